@@ -578,7 +578,21 @@ fn meta_generic<B: AutodiffBackend>(c: &MetaCase, cov: &mut Cov, eps_b: f64) -> 
         let (bx2, _) = ref_leapfrog(&c.spec, &fx2, &nfp, eps, c.n_leapfrog);
         let sens = maxdiff(&bx1, &bx2) + maxdiff(&bx1, &pos[r]);
         let scale = maxabs(&pos[r]) + maxabs(&fx) + 1e-300;
-        let tol = 60.0 * amp * (sens + eps_b * scale);
+        // rounding noise of the backend's size injected at every operation of the forward and
+        // the backward pass (errors made early are amplified by the rest of the forward pass and
+        // the whole way back, which a single perturbation at the turning point underestimates)
+        let mut sim_x = 0.0f64;
+        let mut sim_p = 0.0f64;
+        let mut nrng = Prng::new(0xB0C4 ^ (r as u64) << 20 ^ (c.n_leapfrog as u64) << 8 ^ pos[r][0].to_bits());
+        for _ in 0..10 {
+            let (qx, qp) = noisy_leapfrog(&c.spec, &pos[r], &mom[r * dim..(r + 1) * dim], eps, c.n_leapfrog, eps_b, &mut nrng);
+            let nqp: Vec<f64> = qp.iter().map(|v| -v).collect();
+            let (rbx, bp) = noisy_leapfrog(&c.spec, &qx, &nqp, eps, c.n_leapfrog, eps_b, &mut nrng);
+            let nbp: Vec<f64> = bp.iter().map(|v| -v).collect();
+            sim_x = sim_x.max(maxdiff(&rbx, &pos[r]));
+            sim_p = sim_p.max(maxdiff(&nbp, &mom[r * dim..(r + 1) * dim]));
+        }
+        let tol = (60.0 * amp * (sens + eps_b * scale)).max(8.0 * sim_x + 20.0 * eps_b * scale);
         if tol < 0.02 * (maxdiff(&fx, &pos[r]) + maxabs(&pos[r])) {
             let dx = maxdiff(&b.proposed_positions, &pos[r]);
             let back_p: Vec<f64> = b.proposed_momenta.iter().map(|v| -v).collect();
@@ -593,7 +607,7 @@ fn meta_generic<B: AutodiffBackend>(c: &MetaCase, cov: &mut Cov, eps_b: f64) -> 
                 c.n_leapfrog,
                 b.proposed_positions
             );
-            let ptol = 60.0 * amp * (eps_b * (maxabs(&mom[r * dim..(r + 1) * dim]) + maxabs(&fp)) + sens / eps.max(1e-300));
+            let ptol = (60.0 * amp * (eps_b * (maxabs(&mom[r * dim..(r + 1) * dim]) + maxabs(&fp)) + sens / eps.max(1e-300))).max(8.0 * sim_p);
             ensure!(dp <= ptol, "hmc-not-reversible", "momentum after the round trip is {:?}, expected -p = {:?}", b.proposed_momenta, mom[r * dim..(r + 1) * dim].iter().map(|v| -v).collect::<Vec<_>>());
             cov.class("reversibility-checked");
         } else {
